@@ -84,4 +84,41 @@ def findSegSearch (segs : List Seg) (o : Int) : Option (Seg × Int) :=
     | none => some (s0, s0.base)
     | some s => if o ≤ s.last then some (s, o) else none
 
+/-! ### seeded changes to `RestoreFromS3` (round 3), modelled as variants -/
+
+/-- highest footer last-offset over EVERY listed `.kfs` object (−1: none) -/
+def maxFooter (ss : List Seg) : Int := ss.foldl (fun m g => if g.last > m then g.last else m) (-1)
+
+/-- `RestoreFromS3` with the seeded change C02-r3-1: the restored last offset is the highest footer last-offset found while
+probing every listed `.kfs` object, instead of the last offset of the last segment that SURVIVED the index check — an orphan
+that is skipped still advances `nextOffset`. -/
+def restoreAtMaxFooter (x : LLog) (st : Int) : LLog × RestoreOut :=
+  match scanIdx x.noIdx st (sortSegs x.l.s3) with
+  | none => ({ x with l := freshAt x.l st }, .err)
+  | some segs =>
+    if segs.isEmpty then ({ x with l := freshAt x.l st }, .ok (-1)) else
+    let last := maxFooter x.l.s3
+    ({ x with l := { x.l with next := if last ≥ st then last + 1 else st
+                              hw := if last ≥ st then last + 1 else st
+                              segs := segs, buf := [], fl := [], gated := false } }, .ok last)
+
+/-- the index loop with the seeded change C04-r3-1: a COMMITTED segment (`base < nextOffset`) whose `.index` object is missing
+is registered anyway, without index entries (`Read` then takes the no-index fallback `sliceFull`). -/
+def scanIdxLenient (noIdx : List Int) (next : Int) : List Seg → List Seg
+  | [] => []
+  | g :: t =>
+    if noIdx.contains g.base then
+      (if g.base ≥ next then scanIdxLenient noIdx next t else { g with entries := [] } :: scanIdxLenient noIdx next t)
+    else g :: scanIdxLenient noIdx next t
+
+/-- `RestoreFromS3` with the seeded change C04-r3-1 (never fails on a missing index). -/
+def restoreAtLenient (x : LLog) (st : Int) : LLog × RestoreOut :=
+  let segs := scanIdxLenient x.noIdx st (sortSegs x.l.s3)
+  match segs.getLast? with
+  | none => ({ x with l := freshAt x.l st }, .ok (-1))
+  | some s =>
+    ({ x with l := { x.l with next := if s.last ≥ st then s.last + 1 else st
+                              hw := if s.last ≥ st then s.last + 1 else st
+                              segs := segs, buf := [], fl := [], gated := false } }, .ok s.last)
+
 end KafVerif.PLog
